@@ -282,7 +282,8 @@ def float_pairs(rng, rep, n):
 def build_harness(wd, files, compiler, std, tag, opt, san=True):
     def comp(src):
         obj = src[:-3] + f".{tag}.o"
-        rc, out = cxx(src, obj, compiler=compiler, std=std, opt=opt, extra=["-c"], san=san)
+        # wall-clock value is only a backstop: under machine load > 100 a 12 s-CPU compile has taken > 30 min of wall time
+        rc, out = cxx(src, obj, compiler=compiler, std=std, opt=opt, extra=["-c"], san=san, timeout=WALL_BACKSTOP)
         return src, obj, rc, out
     objs = []
     for src, obj, rc, out in pmap(comp, files):
@@ -296,6 +297,7 @@ def build_harness(wd, files, compiler, std, tag, opt, san=True):
     return exe, None
 
 
+WALL_BACKSTOP = 6 * 3600                           # seconds of wall time for any single compile / harness process
 CPU_LIMIT = {"quick": 900, "thorough": 14400}      # seconds of CPU per harness process (RLIMIT_CPU, not wall time)
 _cpu = [900]
 
@@ -314,7 +316,7 @@ def run_harness(exe, lines, shards=16):
     def work(idx):
         if not idx:
             return [], ""
-        rc, out, err = run([exe, str(_cpu[0])], inp="\n".join(lines[i] for i in idx) + "\n", env=HENV, timeout=6 * 3600)
+        rc, out, err = run([exe, str(_cpu[0])], inp="\n".join(lines[i] for i in idx) + "\n", env=HENV, timeout=WALL_BACKSTOP)
         res = [l for l in out.split("\n") if l]
         if len(res) < len(idx):
             res += [f"T signal=died rc={rc} request={lines[i]} stderr={err[-300:]!r}".replace("\n", " ") for i in idx[len(res):]]
@@ -333,7 +335,7 @@ HENV = dict(UBSAN_ENV, ASAN_OPTIONS="detect_leaks=0:abort_on_error=1:handle_abor
 
 
 def run_block(exe, cmd):
-    rc, out, err = run([exe, "600"], inp=cmd + "\n", env=HENV, timeout=6 * 3600)
+    rc, out, err = run([exe, "600"], inp=cmd + "\n", env=HENV, timeout=WALL_BACKSTOP)
     res = [l for l in out.split("\n") if l]
     if rc != 0 or not res or res[-1] != "END":
         raise RuntimeError(f"harness {cmd}: rc={rc}\n{err[-3000:]}")
@@ -968,11 +970,11 @@ def run_probes(tier, seed, rng, wd, units, drv, violations, stats, samples):
         p = os.path.join(pd, f"neg{i}.cc")
         src = probe_src(units[c["u"]], c["rep"], c["site"], control=False)
         open(p, "w").write(src)
-        rc, out = cxx(p, None, compiler=c["compiler"], std=c["std"], san=False, syntax_only=True)
+        rc, out = cxx(p, None, compiler=c["compiler"], std=c["std"], san=False, syntax_only=True, timeout=WALL_BACKSTOP)
         pc = os.path.join(pd, f"ctl{i}.cc")
         srcc = probe_src(units[c["u"]], c["rep"], c["site"], control=True)
         open(pc, "w").write(srcc)
-        rcc, outc = cxx(pc, None, compiler=c["compiler"], std=c["std"], san=False, syntax_only=True)
+        rcc, outc = cxx(pc, None, compiler=c["compiler"], std=c["std"], san=False, syntax_only=True, timeout=WALL_BACKSTOP)
         return c, src, rc, out, rcc, outc
     for (c, src, rc, out, rcc, outc), ma in zip(pmap(neg, list(enumerate(cases))), mans):
         stats["neg_probes"] += 1
